@@ -40,6 +40,15 @@ def skeleton(kind):
         d.add_child(k)
         k.add_child(Node("organizationName", content="o"))
         return d
+    if kind == "metadataRoot":
+        # a free-standing additionalMetadata payload: the tree handed to prune is rooted at the metadata element itself
+        md = Node("metadata")
+        j = Node("unitList")
+        md.add_child(j)
+        u = Node("zzUnit", content="x")
+        j.add_child(u)
+        u.add_child(Node("zzInner", content="y"))
+        return md
     if kind in ("eml", "relatedProject"):
         # parents whose rule lists a child name that is not a known element (if the table has such names)
         if kind == "eml":
@@ -184,7 +193,7 @@ def run(rep, tier, seed):
     from harness import gen_tables
     gen_tables.write_rule_table(wd)
     cfgp = os.path.join(wd, "plans.cfg")
-    open(cfgp, "w").write('SPECIFICATION Spec\nCONSTANTS\n  Which = "prune"\n  Skeletons = {"access", "dataset", "metadata", "eml", "relatedProject"}\n'
+    open(cfgp, "w").write('SPECIFICATION Spec\nCONSTANTS\n  Which = "prune"\n  Skeletons = {"access", "dataset", "metadata", "metadataRoot", "eml", "relatedProject"}\n'
                           f'  MaxSites = 6\n  MaxPlant = {1 if tier == "quick" else 2}\n  MaxItems = 1\nINVARIANT Log\n')
     r = run_tlc("MC_Plans", cfg=cfgp, timeout=600)
     if not r.ok:
@@ -198,7 +207,7 @@ def run(rep, tier, seed):
         for _ in range(500):
             a = [rnd.randint(1, 6), rnd.choice(kinds)]
             b = [rnd.randint(1, 6), rnd.choice(kinds)]
-            plans.append({"skeleton": rnd.choice(["access", "dataset", "metadata", "eml", "relatedProject"]), "strict": rnd.random() < 0.5, "plant": [a, b]})
+            plans.append({"skeleton": rnd.choice(["access", "dataset", "metadata", "metadataRoot", "eml", "relatedProject"]), "strict": rnd.random() < 0.5, "plant": [a, b]})
     G["plans"] = plans
     evs = [e for chunk in parallel(w_plans, range(len(plans))) for e in chunk]
     nseed = 120 if tier == "quick" else 2500
